@@ -193,7 +193,24 @@ int pthread_mutex_unlock(pthread_mutex_t *m)
   return 0;
 }
 
-static int cond_wait_model(pthread_cond_t *c, pthread_mutex_t *m, bool timed)
+// A timed wait may expire whenever the scheduler says so: the other threads can be arbitrarily slow
+// (descheduled, stalled, swapped out). Expiry is what the waiter will observe through the clock as
+// well, so the simulated clock is moved up to the deadline when it happens (libstdc++ decides
+// "timeout" by reading the clock after the wait returns, not by the wait's return value).
+static uint64_t ts_to_ns(const struct timespec *ts)
+{
+  if (!ts || ts->tv_sec < 0)
+    return 0;
+  return (uint64_t)ts->tv_sec * 1000000000ULL + (uint64_t)ts->tv_nsec;
+}
+static void timed_wait_expired(uint64_t deadline_ns)
+{
+  if (deadline_ns > g.clock_ns)
+    g.clock_ns = deadline_ns;
+  g.fault_fired[2]++;  // fault kind 2 is "timed wait expired" by convention
+}
+
+static int cond_wait_model(pthread_cond_t *c, pthread_mutex_t *m, bool timed, uint64_t deadline_ns = 0)
 {
   Thread *me = tl_self;
   sched_point(me, OP_COND_WAIT, (uintptr_t)c);
@@ -222,6 +239,8 @@ static int cond_wait_model(pthread_cond_t *c, pthread_mutex_t *m, bool timed)
   }
   me->cond_signaled = false;
   me->spurious_ok = false;
+  if (timed && !signaled)
+    timed_wait_expired(deadline_ns);
   // re-acquire the mutex
   me->op = OP_LOCK;
   me->op_addr = (uintptr_t)m;
@@ -244,14 +263,14 @@ int pthread_cond_timedwait(pthread_cond_t *c, pthread_mutex_t *m, const struct t
 {
   if (!in_sim())
     return real_pthread_cond_timedwait()(c, m, ts);
-  return cond_wait_model(c, m, true);
+  return cond_wait_model(c, m, true, ts_to_ns(ts));
 }
 
 int pthread_cond_clockwait(pthread_cond_t *c, pthread_mutex_t *m, clockid_t clk, const struct timespec *ts)
 {
   if (!in_sim())
     return real_pthread_cond_clockwait()(c, m, clk, ts);
-  return cond_wait_model(c, m, true);
+  return cond_wait_model(c, m, true, ts_to_ns(ts));
 }
 
 int pthread_cond_signal(pthread_cond_t *c)
@@ -449,6 +468,9 @@ long syscall(long n, ...)
         return -1;
       }
       bool timed = d != 0;
+      uint64_t deadline_ns = 0;
+      if (timed)  // FUTEX_WAIT: relative, FUTEX_WAIT_BITSET: absolute
+        deadline_ns = ts_to_ns((const struct timespec *)d) + (op == FUTEX_WAIT ? g.clock_ns : 0);
       o->waiters.push(me->id);
       me->futex_woken = false;
       me->op = OP_FUTEX_BLOCK;
@@ -469,6 +491,7 @@ long syscall(long n, ...)
       me->futex_woken = false;
       hb_acquire(me, &o->vc);
       if (!was_woken) {
+        timed_wait_expired(deadline_ns);
         errno = ETIMEDOUT;
         return -1;
       }
